@@ -41,6 +41,18 @@ def operand(v, wires):
     return "?"
 
 
+MIRROR = {"<": ">", ">": "<", "<=": ">=", ">=": "<=", "=": "=", "!=": "!="}
+
+
+def row(a, op, b):
+    """one condition row; a Factorio condition holds a constant on the right only, so the plan's `c OP s` is the
+    row `s OP' c` (what the emitter must print: a constant next to a second signal is ignored by the game)"""
+    op = COP.get(op, op)
+    if a.startswith("#") and not b.startswith("#"):
+        a, b, op = b, a, MIRROR.get(op, op)
+    return f"{a}{op}{b}"
+
+
 def expected_kind(p, stm):
     """canonical configuration string (same format as Lean's kindStr) from the *planned* placement properties"""
     t, pr = p["type"], p["props"]
@@ -66,11 +78,11 @@ def expected_kind(p, stm):
                 first = fname(c.get("first_signal")) if c.get("first_signal") else c.get("first_constant", 0)
                 second = fname(c.get("second_signal")) if c.get("second_signal") else c.get("second_constant", 0)
                 tag = "&" if (k > 0 and c.get("compare_type") == "and") else "|"
-                cs.append(f"{tag}{operand(first, c.get('first_signal_wires'))}{COP.get(c.get('comparator'), c.get('comparator'))}{operand(second, c.get('second_signal_wires'))}")
+                cs.append(tag + row(operand(first, c.get('first_signal_wires')), c.get('comparator'), operand(second, c.get('second_signal_wires'))))
             return f"decider[{' '.join(cs)} => {o}]"
         a = operand(fname(pr.get("left_operand")), pr.get("left_operand_wires"))
         b = operand(fname(pr.get("right_operand")), pr.get("right_operand_wires"))
-        return f"decider[|{a}{COP.get(pr.get('operation'), pr.get('operation'))}{b} => {o}]"
+        return f"decider[|{row(a, pr.get('operation'), b)} => {o}]"
     if t == "constant-combinator":
         if "signals" in pr and isinstance(pr["signals"], dict) and pr["signals"]:
             items = sorted((fname(k), i32(v)) for k, v in pr["signals"].items() if i32(v) != 0)
